@@ -4,27 +4,7 @@ Import ListNotations.
 Require Export BS.Common.Util BS.C05.Model.
 Local Open Scope Z_scope.
 
-(* ---- key equality as Go's == on the column type (the driver never generates NaN);
-        +0.0 == -0.0 although their bit patterns differ ---- *)
-Definition bytes_eqb := list_eqb N.eqb.
-Definition fzero32 (b : N) : bool := N.eqb (N.land b 2147483647) 0.
-Definition fzero64 (b : N) : bool := N.eqb (N.land b 9223372036854775807) 0.
-
-Definition kval_eqb (a b : kval) : bool :=
-  match a, b with
-  | VString x, VString y => bytes_eqb x y
-  | VBytes x, VBytes y => bytes_eqb x y
-  | VBool x, VBool y => Bool.eqb x y
-  | VUnit, VUnit => true
-  | VUint x, VUint y | VUint8 x, VUint8 y | VUint16 x, VUint16 y
-  | VUint32 x, VUint32 y | VUint64 x, VUint64 y | VUintptr x, VUintptr y => N.eqb x y
-  | VInt x, VInt y | VInt8 x, VInt8 y | VInt16 x, VInt16 y
-  | VInt32 x, VInt32 y | VInt64 x, VInt64 y => Z.eqb x y
-  | VFloat32 x, VFloat32 y => N.eqb x y || (fzero32 x && fzero32 y)
-  | VFloat64 x, VFloat64 y => N.eqb x y || (fzero64 x && fzero64 y)
-  | _, _ => false
-  end.
-Definition key_eqb : list kval -> list kval -> bool := list_eqb kval_eqb.
+(* key equality as Go's == on the column type: kval_eqb / key_eqb of Model.v *)
 
 (* ---- cases ---- *)
 Inductive ity : Type := TInt8 | TUint8 | TInt16 | TUint16.
